@@ -350,6 +350,8 @@ impl<T> AtomicBucket<T> {
                 metrics::__verif::spin("bucket.data.wait");
                 backoff.snooze();
             }
+            #[cfg(metrics_verif)]
+            metrics::__verif::point("bucket.data.quiesced");
 
             // Read the data out of the block.
             let data = block.data();
@@ -437,6 +439,8 @@ impl<T> AtomicBucket<T> {
                     metrics::__verif::spin("bucket.clear.wait");
                     backoff.snooze();
                 }
+                #[cfg(metrics_verif)]
+                metrics::__verif::point("bucket.clear.quiesced");
 
                 // Read the data out of the block.
                 let data = block.data();
